@@ -883,6 +883,8 @@ def _area_formula(shape, dims):
 
 
 def linked_execute(case):
+    import copy
+
     from armi.reactor import blocks, components
 
     out = Out()
@@ -958,7 +960,15 @@ def linked_execute(case):
         i = op["c"] % n
         mi = model[i]
         if op["op"] == "T":
-            ops.append(("T", i, _temp(mi["lo"], mi["hi"], op["u"])))
+            ops.append(("T", i, op["u"]))  # resolved against the window of the material the component has then
+        elif op["op"] == "mat":
+            if mi["kind"] == "solid":
+                ops.append(("mat", i, op["m"]))
+        elif op["op"] == "copy":
+            holders = [j for j, mj in enumerate(model) if any(isinstance(v, str) for v in mj["dims"].values())]
+            ops.append(("copy", holders[op["c"] % len(holders)]))
+        elif op["op"] == "bcopy":
+            ops.append(("bcopy", 0))
         elif op["op"] in ("lhot", "lcold"):
             # a write THROUGH a link: setDimension(linked dim, v, retainLink=True, cold=...) on a component that has one
             linkers = [j for j, mj in enumerate(model) if any(link_of(j, d) for d in _LSHAPE_DIMS[mj["shape"]])]
@@ -973,7 +983,7 @@ def linked_execute(case):
                 ops.append((op["op"], i, own[op["d"] % len(own)], op["u"]))
     for i, mi in enumerate(model):
         if mi["kind"] == "solid":
-            ts = [mi["T"]] + [o[2] for o in ops if o[0] == "T" and o[1] == i]
+            ts = [mi["T"]]  # (a later step that would land on a flat dLL is skipped when it is reached)
             if any(t != mi["Tin"] and dll(i, t) == dll(i, mi["Tin"]) for t in ts):
                 out.rejected = True
                 out.label("rejected:flat-dLL")
@@ -1051,6 +1061,52 @@ def linked_execute(case):
             vol = c.getVolume()
             out.check(_close(vol, area * height, TIGHT, 1e-13 * scale2 * height), "cache/volume-stale",
                       lambda: "%s: %s getVolume %r, area*height %r" % (what, mi["name"], vol, area * height))
+        # copy.copy of a component: its links keep pointing at the ORIGINAL siblings and follow them
+        for cpn, (cp, i) in enumerate(copies):
+            mi = model[i]
+            cdims = {}
+            for d in _LSHAPE_DIMS[mi["shape"]] + ["mult"]:
+                cdims[d] = cp.getDimension(d)
+                lk = link_of(i, d)
+                if not lk:
+                    continue
+                tgt = clist[lk[0]]
+                held = cp.p[d]
+                out.check(cp.dimensionIsLinked(d) and held.getLinkedComponent() is tgt and held[1] == lk[1], "copy/link-of-copy-not-the-original-sibling",
+                          lambda: "%s: copy.copy(%s).%s holds %r whose component is%s the %s in the block" % (
+                              what, mi["name"], d, held, "" if held.getLinkedComponent() is tgt else " NOT", tgt.name))
+                out.check(cdims[d] == tgt.getDimension(lk[1]) and _close(cdims[d], hot(i, d)), "copy/linked-dimension-of-copy-not-target-current-dimension",
+                          lambda: "%s: copy #%d of %s: %s (-> %s) = %r, live %s.%s = %r, cold*f(T_target) = %r" % (
+                              what, cpn, mi["name"], d, mi["dims"][d], cdims[d], tgt.name, lk[1], tgt.getDimension(lk[1]), hot(i, d)))
+            fa = _area_formula(mi["shape"], cdims)
+            if mi["dims"].get("modArea"):
+                j, how = link_of(i, "modArea")
+                held = cp.p["modArea"]
+                out.check(held.getLinkedComponent() is clist[j], "copy/link-of-copy-not-the-original-sibling",
+                          lambda: "%s: copy.copy(%s).modArea holds %r, not the %s in the block" % (what, mi["name"], held, clist[j].name))
+                oth = _area_formula(model[j]["shape"], {d: clist[j].getDimension(d) for d in _LSHAPE_DIMS[model[j]["shape"]] + ["mult"]})
+                fa += oth if how == "add" else -oth
+            sc = max(abs(cdims[d]) for d in _LSHAPE_DIMS[mi["shape"]]) ** 2 * max(1.0, cdims["mult"])
+            out.check(_close(cp.getArea(), fa, TIGHT, 1e-13 * sc), "copy/area-of-copy-not-from-current-dimensions",
+                      lambda: "%s: copy #%d of %s area %r, from its current dimensions %r" % (what, cpn, mi["name"], cp.getArea(), fa))
+        # copy.deepcopy of the block: links point at the copied siblings; the copy is untouched by later steps
+        for b2, snap in deepcopies:
+            kids = {c_.name: c_ for c_ in b2}
+            for i, mi in enumerate(model):
+                for d in _LSHAPE_DIMS[mi["shape"]] + ["mult"]:
+                    lk = link_of(i, d)
+                    c2 = kids[mi["name"]]
+                    if lk:
+                        held = c2.p[d]
+                        t2 = kids[model[lk[0]]["name"]]
+                        out.check(held.getLinkedComponent() is t2 and held.getLinkedComponent() is not clist[lk[0]],
+                                  "copy/link-in-deepcopied-block-not-the-copied-sibling",
+                                  lambda: "%s: deepcopy(block): %s.%s holds %r" % (what, mi["name"], d, held))
+                        out.check(c2.getDimension(d) == t2.getDimension(lk[1]), "copy/link-in-deepcopied-block-not-the-copied-sibling",
+                                  lambda: "%s: deepcopy(block): %s.%s = %r, copied %s.%s = %r" % (
+                                      what, mi["name"], d, c2.getDimension(d), t2.name, lk[1], t2.getDimension(lk[1])))
+                    out.check(c2.getDimension(d) == snap[(i, d)], "copy/deepcopied-block-follows-the-original",
+                              lambda: "%s: deepcopy(block): %s.%s was %r when copied, now %r" % (what, mi["name"], d, snap[(i, d)], c2.getDimension(d)))
         for i in unlinked:
             m = lin_mass(i)
             if i in refmass:
@@ -1059,14 +1115,60 @@ def linked_execute(case):
             else:
                 refmass[i] = m
 
+    copies, deepcopies = [], []
     check_all("after construction")
     nontrivial = False
     for k, op in enumerate(ops):
         i = op[1]
         mi = model[i]
         c = clist[i]
-        if op[0] == "T":
-            t_new = op[2]
+        if op[0] == "copy":
+            copies.append((copy.copy(c), i))
+            what = "step %d: copy.copy(%s)" % (k, mi["name"])
+            out.label("op:copy")
+        elif op[0] == "bcopy":
+            b2 = copy.deepcopy(blk)
+            kids = {c_.name: c_ for c_ in b2}
+            deepcopies.append((b2, {(j, d): kids[mj["name"]].getDimension(d) for j, mj in enumerate(model)
+                                    for d in _LSHAPE_DIMS[mj["shape"]] + ["mult"]}))
+            what = "step %d: copy.deepcopy(block)" % k
+            out.label("op:deepcopy-block")
+        elif op[0] == "mat":
+            # exchange the material through the public setProperties, then set the composition the way __init__ does;
+            # the new material must cover the component's input and current temperature
+            new = None
+            for kk in range(len(SOLIDS)):
+                cand = SOLIDS[(op[2] + kk) % len(SOLIDS)]
+                if cand == mi["mat"]:
+                    continue
+                r2 = _make_material(cand, None)
+                lo2, hi2, _s2 = _window(r2, "solid")
+                if not (lo2 <= mi["Tin"] <= hi2 and lo2 <= mi["T"] <= hi2):
+                    continue
+                if mi["T"] != mi["Tin"] and float(r2.linearExpansionPercent(Tc=mi["T"])) == float(r2.linearExpansionPercent(Tc=mi["Tin"])):
+                    continue
+                new = (cand, r2, lo2, hi2)
+                break
+            if new is None:
+                out.label("skipped:no-material-covers-the-temperatures")
+                continue
+            f_old = f(i)
+            what = "step %d: setProperties(%s: %s -> %s) at %.6f C (input %.6f C)" % (k, mi["name"], mi["mat"], new[0], mi["T"], mi["Tin"])
+            c.setProperties(_make_material(new[0], None) if op[2] % 2 else new[0])
+            c.applyMaterialMassFracsToNumberDensities()
+            mi["mat"], mi["ref"], mi["lo"], mi["hi"] = new
+            refmass.pop(i, None)
+            if i in weights:
+                weights[i] = _weights(sorted(c.getNumberDensities()))
+            if abs(f(i) - f_old) > 1e-6:
+                nontrivial = True
+                out.label("material-exchange:expansion-differs")
+            out.label("op:material-exchange")
+        elif op[0] == "T":
+            t_new = _temp(mi["lo"], mi["hi"], op[2])
+            if mi["kind"] == "solid" and t_new != mi["Tin"] and dll(i, t_new) == dll(i, mi["Tin"]):
+                out.label("skipped:flat-dLL")
+                continue
             involved = any(link_of(j, d) and link_of(j, d)[0] == i for j, mj in enumerate(model) for d in mj["dims"])
             if mi["kind"] == "solid" and involved and abs(t_new - mi["T"]) >= 50.0 and dll(i, t_new) != dll(i, mi["T"]):
                 nontrivial = True
@@ -1142,7 +1244,9 @@ def linked_strategy(tier):
                                   "u": st.floats(0.0, 1.0)})
     op_l = st.fixed_dictionaries({"op": st.sampled_from(["lhot", "lcold"]), "c": st.integers(0, 3), "d": st.integers(0, 3),
                                   "u": st.floats(0.0, 1.0)})
-    op_t = st.one_of(op_t, op_t.map(dict))  # temperature steps stay the most frequent operation
+    op_m = st.fixed_dictionaries({"op": st.just("mat"), "c": st.integers(0, 3), "m": st.integers(0, len(SOLIDS) - 1)})
+    op_c = st.fixed_dictionaries({"op": st.sampled_from(["copy", "bcopy"]), "c": st.integers(0, 3)})
+    op_t = st.one_of(op_t, op_t.map(dict), op_t.map(lambda o: dict(o)))  # temperature steps stay the most frequent operation
     return st.fixed_dictionaries({
         "template": st.sampled_from(TEMPLATES),
         "scale": st.floats(0.05, 30.0),
@@ -1154,7 +1258,7 @@ def linked_strategy(tier):
         "t0": st.lists(_ufrac(), min_size=4, max_size=4),
         "height": st.floats(0.5, 200.0),
         "tp": st.floats(0.0, 1.0),
-        "ops": st.lists(st.one_of(op_t, op_w, op_l), min_size=1, max_size=8),
+        "ops": st.lists(st.one_of(op_t, op_w, op_l, op_m, op_c), min_size=1, max_size=10),
     })
 
 
@@ -1172,9 +1276,10 @@ def linked_enum(tier):
                     "mult": 1 + int(_u(*key + ("m",)) * 271),
                     "mats": [int(_u(*key + ("mat", i)) * len(SOLIDS)) for i in range(3)], "fluid": fi,
                     "tin": [0.0, 0.02, 0.0, 0.05], "t0": [0.4, 0.3, 0.5, 0.2], "height": 1.0 + 50.0 * _u(*key + ("h",)),
-                    "ops": [{"op": "T", "c": 0, "u": 1.0}, {"op": "T", "c": 1, "u": 0.9}, {"op": "T", "c": 2, "u": 0.0},
+                    "ops": [{"op": "copy", "c": fi}, {"op": "bcopy", "c": 0}, {"op": "T", "c": 0, "u": 1.0}, {"op": "T", "c": 1, "u": 0.9}, {"op": "T", "c": 2, "u": 0.0},
                             {"op": "T", "c": 3, "u": 1.0}, {"op": "hot", "c": 0, "d": 0, "u": 0.5}, {"op": "T", "c": 0, "u": 0.1},
-                            {"op": "T", "c": 2, "u": 0.8}, {"op": "lhot", "c": r, "d": 0, "u": 0.6}, {"op": "T", "c": 0, "u": 0.6},
+                            {"op": "T", "c": 2, "u": 0.8}, {"op": "mat", "c": 0, "m": fi + 3 * ti + r}, {"op": "mat", "c": 2, "m": fi + ti + r + 7},
+                            {"op": "lhot", "c": r, "d": 0, "u": 0.6}, {"op": "T", "c": 0, "u": 0.6},
                             {"op": "lcold", "c": r + 1, "d": 1, "u": 0.4}, {"op": "T", "c": 1, "u": 0.2}, {"op": "T", "c": 2, "u": 0.3},
                             {"op": "lhot", "c": r + 1, "d": 1, "u": 0.3}, {"op": "T", "c": 3, "u": 0.5}],
                 })
@@ -1298,7 +1403,10 @@ PARTS = [
          rule="Hypothesis: 2-4 components built like BlockBlueprint.construct (link strings, resolveLinkedDims, HexBlock), each "
               "with its own material, Tinput and Thot; history of up to 8 setTemperature / setDimension operations on any "
               "component, including hot and cold writes THROUGH a link (setDimension(linked dim, v, retainLink=True, cold=...): "
-              "link and target both read back v, the target's cold value is v/f(T_target), the link stays a link); after every step every linked dimension equals the target's current (and cold) dimension and the "
+              "link and target both read back v, the target's cold value is v/f(T_target), the link stays a link), material "
+              "exchanges (setProperties + applyMaterialMassFracsToNumberDensities with another library solid covering the "
+              "temperatures), copy.copy of a component holding links (the copy's links must stay the original siblings and follow "
+              "them) and copy.deepcopy of the block (links must be the copied siblings, the copy frozen); after every step every linked dimension equals the target's current (and cold) dimension and the "
               "harness value cold*f(T_target), every own dimension of a solid equals cold*f, fluids keep theirs, area follows "
               "the current dimensions, cached volume = area*height, unlinked solids conserve A*sum(N_i A_i). Non-trivial: a "
               ">= 50 K change with different dLL of a solid that another component is linked to"),
